@@ -286,6 +286,10 @@ func init() {
 			return tuple{deepCopy(a[0], map[*value]*value{}, map[*smap]*smap{}), iface{}}
 		},
 		"google.golang.org/protobuf/proto.Equal": func(fr *frame, fn *ssa.Function, a []value) value {
+			x, y := a[0].(iface), a[1].(iface)
+			if x.t != nil && y.t != nil && types.Identical(x.t, y.t) {
+				return fr.in.deepEqT(x.t, x.v, y.v, nil, 0)
+			}
 			return fr.in.deepEq(a[0], a[1], 0)
 		},
 		"reflect.DeepEqual": func(fr *frame, fn *ssa.Function, a []value) value {
